@@ -55,6 +55,7 @@ func checkIntComparator(c *Ctx, e *absExec, id string, fn *ssa.Function, li, ri 
 }
 
 func runC16(c *Ctx) {
+	runC16ScratchReset(c)
 	p, fx := c.P, c.Fx
 	e := newAbsExec(p)
 	const pkgFw = "pkg/scheduler/framework"
@@ -386,6 +387,29 @@ func runC16(c *Ctx) {
 				}
 			}
 			c.Check(byCmp, "O4", "PROV", funcKey(push)+": the item evicted from a full heap is chosen by comparison", instrPos(in), t.String(), "the index handed to heap.Remove ("+t.String()+") is a position, not the result of comparing items: a binary heap orders an item only relative to its ancestors, so a fixed slot can hold a better item than one that is kept, and a higher-priority or older job is dropped while a worse one stays to be scheduled")
+			// RANGE: the scan covers every leaf
+			if byCmp && lessM != nil {
+				scanFn := push
+				t.contains(func(x *Term) bool {
+					if x.Op == "call" && x.Fn != nil && !sameFunc(x.Fn, lessM) && len(x.Fn.Blocks) > 0 && hasModPrefix(x.Fn) {
+						scanFn = x.Fn
+					}
+					return false
+				})
+				isLess := func(v ssa.Value) bool {
+					return termOf(v).contains(func(x *Term) bool { return x.Op == "call" && x.Fn != nil && sameFunc(x.Fn, lessM) })
+				}
+				decided, covers, desc := leafScanCoverage(scanFn, isLess)
+				if !decided && desc == "no comparison scan found" {
+					// chosen by comparison in some other way (not an index scan): nothing to bound
+					c.Hold("O4", "RANGE", funcKey(push)+": the eviction scan covers every leaf of the heap", instrPos(in), "no index scan: "+t.String())
+				} else if !decided {
+					c.Undec("O4", "RANGE", funcKey(push)+": the eviction scan covers every leaf of the heap", instrPos(in), desc)
+				} else {
+					c.Check(covers, "O4", "RANGE", funcKey(push)+": the eviction scan covers every leaf of the heap", instrPos(in), desc+" ⊇ leaves [n/2 … n-1]",
+						"the scan in "+funcKey(scanFn)+" compares only "+desc+", which leaves out a leaf of the heap (leaves are slots n/2 … n-1): the item that orders last can sit in the skipped slot, so a better (higher-priority or older) job is dropped from the depth-limited queue while a worse one stays and is scheduled")
+				}
+			}
 		}
 		c.Floor("O4", "PROV depth-limit evictions", n, 1)
 	}
